@@ -24,6 +24,7 @@ A payload descriptor is a dict:
                 ("forever-sections", period)  heartbeat loop with a scheduling point inside each step
                 ("repeat-execute", descriptor, period)   execute another payload again and again
                 ("stubborn", k, period)       (asyncio) heartbeat loop absorbing the first k cancellations
+                ("repeat-adopt", d, period, n) (threading) adopt n copies of d, period apart
                 ("section-adopt", descriptor) adopt another payload from inside a section
                 ("call", name)                call env.shared[name](env)
 
@@ -532,6 +533,13 @@ class Kit:
                         return value
                     elif op == "execute":
                         kit.submit(step[1], "execute")
+                    elif op == "repeat-adopt":
+                        # (thread payloads) keep adopting copies of a payload: step[2] seconds
+                        # apart, step[3] times
+                        for number in range(step[3]):
+                            kit.submit(dict(step[1], id="%s-%d" % (step[1]["id"], number)),
+                                       "adopt")
+                            kit.env.sleep(step[2])
                     elif op == "section":
                         for _ in range(step[1]):
                             kit.env.log("section", id=desc["id"],
